@@ -54,22 +54,63 @@ fn main() {
         Some("list") => for (n, _, sp) in &t { println!("{n}{}", if *sp { " should_panic" } else { "" }); },
         Some("replay") => {
             let (_, f, sp) = t.iter().find(|(n, _, _)| *n == a[2]).expect("no such harness");
-            let mut src = Src::from_bytes(parse_bytes(&a[3]));
-            let (st, ob) = run_one(*f, *sp, &mut src);
-            println!("RESULT {st} obligation={:?} inputs={:?} bytes={}", ob, src.log(), bytes_json(&src.raw()));
-            std::process::exit(if st == "violated" || st == "panic" { 1 } else { 0 });
+            let limit: u64 = std::env::var("VERIF_WATCHDOG_S").ok().and_then(|v| v.parse().ok()).unwrap_or(120);
+            let (f2, sp2) = (*f, *sp);
+            let data = parse_bytes(&a[3]);
+            let (tx, rx) = std::sync::mpsc::channel();
+            let d2 = data.clone();
+            let _h = std::thread::Builder::new().stack_size(512 << 20).spawn(move || {
+                let mut src = Src::from_bytes(d2);
+                let (st, ob) = run_one(f2, sp2, &mut src);
+                let _ = tx.send((st, ob, src.log().clone(), src.raw()));
+            }).expect("spawn");
+            match rx.recv_timeout(std::time::Duration::from_secs(limit)) {
+                Ok((st, ob, log, raw)) => {
+                    println!("RESULT {st} obligation={:?} inputs={:?} bytes={}", ob, log, bytes_json(&raw));
+                    std::process::exit(if st == "violated" || st == "panic" { 1 } else { 0 });
+                }
+                Err(_) => {
+                    println!("RESULT violated obligation={:?} inputs={:?} bytes={}", format!("no-return-within-{limit}s"), Vec::<String>::new(), bytes_json(&data));
+                    std::process::exit(1);
+                }
+            }
         }
         Some("search") => {
             let (_, f, sp) = t.iter().find(|(n, _, _)| *n == a[2]).expect("no such harness");
             let seed: u64 = a[3].parse().unwrap(); let iters: u64 = a[4].parse().unwrap();
             let mut ran = 0u64;
+            // every sample runs under a watchdog: a call that does not come back (the properties say "returns ...") is reported with the
+            // inputs drawn so far instead of hanging the check.  The limit is far above the milliseconds-to-seconds a sample takes.
+            let limit: u64 = std::env::var("VERIF_WATCHDOG_S").ok().and_then(|v| v.parse().ok()).unwrap_or(120);
+            let (f2, sp2) = (*f, *sp);
+            // one worker thread runs all samples; the main thread waits for each with the time limit
+            let (jtx, jrx) = std::sync::mpsc::channel::<u64>();
+            let (tx, rx) = std::sync::mpsc::channel();
+            let _h = std::thread::Builder::new().stack_size(512 << 20).spawn(move || {
+                while let Ok(sd) = jrx.recv() {
+                    harness::src::reset_last_draws();
+                    let mut src = Src::from_seed(sd);
+                    let (st, ob) = run_one(f2, sp2, &mut src);
+                    let bad = st == "violated" || st == "panic";
+                    if tx.send((st, ob, if bad { src.log().clone() } else { vec![] }, if bad { src.raw() } else { vec![] })).is_err() { break; }
+                }
+            }).expect("spawn");
             for k in 0..iters {
-                let mut src = Src::from_seed(seed.wrapping_mul(1_000_003).wrapping_add(k));
-                let (st, ob) = run_one(*f, *sp, &mut src);
-                if st != "skipped" { ran += 1; }
-                if st == "violated" || st == "panic" {
-                    println!("RESULT {st} obligation={:?} inputs={:?} bytes={}", ob, src.log(), bytes_json(&src.raw()));
-                    std::process::exit(1);
+                let sd = seed.wrapping_mul(1_000_003).wrapping_add(k);
+                jtx.send(sd).expect("worker");
+                match rx.recv_timeout(std::time::Duration::from_secs(limit)) {
+                    Ok((st, ob, log, raw)) => {
+                        if st != "skipped" { ran += 1; }
+                        if st == "violated" || st == "panic" {
+                            println!("RESULT {st} obligation={:?} inputs={:?} bytes={}", ob, log, bytes_json(&raw));
+                            std::process::exit(1);
+                        }
+                    }
+                    Err(_) => {
+                        let g = harness::src::LAST_DRAWS.lock().unwrap_or_else(|e| e.into_inner());
+                        println!("RESULT violated obligation={:?} inputs={:?} bytes={}", format!("no-return-within-{limit}s"), g.0, bytes_json(&g.1));
+                        std::process::exit(1);
+                    }
                 }
             }
             println!("RESULT ok evaluated={ran} of {iters}");
